@@ -51,6 +51,8 @@ def _gen(rng, i):
   s = {'kind': kind, 'level': level, 'initial': initial, 'max': mx, 'exp': exp, 'rseed': rng.randint(0, 10 ** 6),
        'down_mode': rng.choice(['refuse', 'refuse', 'refuse20', 'silent' if kind == 'mux' else 'refuse', 'blackhole']),
        'start_up': rng.random() < 0.8, 'steps': []}
+  if kind == 'thrift' and rng.random() < 0.25:
+    s['pool'] = {'max_watermark': rng.choice([1, 2])}
   st = s['steps']
   up = s['start_up']
   spacing = rng.choice([200, 500, 1000])
@@ -147,6 +149,22 @@ def _gen_multi(rng, i, pattern=None):
   return s
 
 
+def _queued_fault_family(rng, thorough):
+  """A bounded connection pool with requests waiting in its queue at the moment the connection dies under
+  the request in flight; then the usual outage and recovery."""
+  out = []
+  for level in ('chain', 'full'):
+    for mw in (1, 2):
+      for nb in ((2, 3, 4) if thorough else (2, 3)):
+        for dm in ('refuse', 'refuse20', 'blackhole'):
+          initial, mx, exp = rng.choice(CONFIGS)
+          st = [['traffic', 1000, 500], ['burst', nb], ['reach', 0], ['traffic', int(mx * 1000) + 12000, 500],
+                ['reach', 1], ['recover', 500]]
+          out.append({'kind': 'thrift', 'level': level, 'initial': initial, 'max': mx, 'exp': exp, 'rseed': rng.randint(0, 10 ** 6),
+                      'down_mode': dm, 'start_up': True, 'steps': st, 'pool': {'max_watermark': mw}})
+  return out
+
+
 def _close_family(rng, thorough):
   """The owner closes the client exactly while a reconnect attempt is in flight (slow refusal, silent
   handshake, refused 20 ms later), after 1..3 failed attempts, then time passes and the endpoint comes back."""
@@ -173,6 +191,7 @@ def cases(prop, tier, seed):
   n = 400 if tier == 'quick' else 8000
   out = [_gen(rng, i) for i in range(n)]
   out += _close_family(random.Random(int(seed) + 11), tier != 'quick')
+  out += _queued_fault_family(random.Random(int(seed) + 17), tier != 'quick')
   pats = _multi_systematic()
   if tier == 'quick':
     rng2 = random.Random(7 * int(seed) + 1)
@@ -181,6 +200,17 @@ def cases(prop, tier, seed):
   if tier != 'quick':
     out += [_gen_multi(rng, i + 1 + int(seed), pat) for i, pat in enumerate(pats)]
   out += [_gen_multi(rng, i) for i in range(20 if tier == 'quick' else 600)]
+  # the default aperture with a reserve endpoint that cannot be reached: calls pile up on the active member for
+  # a few seconds (the load average rises, nothing triggers an expansion), then the client is closed with the
+  # calls still in flight: nothing may dial the reserve endpoint afterwards
+  rng4 = random.Random(19 * int(seed) + 3)
+  for i in range(12 if tier == 'quick' else 120):
+    kind = 'mux' if i % 3 else 'thrift'
+    initial, mx, exp = [(2, 10, 1.5), (3, 20, 2.0)][i % 2]
+    out.append({'kind': kind, 'level': 'multi', 'initial': initial, 'max': mx, 'exp': exp, 'rseed': rng4.randint(0, 10 ** 6),
+                'balancer': 'aperture1', 'down_mode': 'refuse', 'n': rng4.choice([2, 3]), 'focus': 'idle', 'auto_delay': 20000,
+                'steps': [['refuse_new'], ['pile', rng4.choice([6, 8, 12]), 30000], ['adv', rng4.choice([2500, 3500, 6000])],
+                          ['close'], ['adv', 60000]]})
   # a member that is down (all its connections reset, or one reset and the others silent with calls still
   # outstanding on them) leaves the server set; later the client is closed: nothing dials it any more
   rng3 = random.Random(13 * int(seed) + 5)
@@ -264,7 +294,7 @@ def run_case(script):
       from scales.thrift.sink import SocketTransportSink, ThriftSerializerSink
       from scales.pool import WatermarkPoolSink
       provs = [TimeoutSinkProvider(), ThriftSerializerSink.Builder(), ResurrectorSink.Builder(**rparams),
-               WatermarkPoolSink.Builder(), SocketTransportSink.Builder()]
+               WatermarkPoolSink.Builder(**(script.get('pool') or {})), SocketTransportSink.Builder()]
     else:
       from scales.thriftmux.sink import SocketTransportSink, ThriftMuxMessageSerializerSink
       provs = [TimeoutSinkProvider(), ThriftMuxMessageSerializerSink.Builder(), ResurrectorSink.Builder(**rparams),
@@ -324,6 +354,10 @@ def run_case(script):
       from scales.thriftmux import ThriftMux
       b = ThriftMux.NewBuilder(Hello.Iface)
     b = b.ReplaceSink(ResurrectorSink.Builder, ResurrectorSink.Builder(**rparams))
+    if kind == 'thrift' and script.get('pool'):
+      from scales.pool import WatermarkPoolSink
+      from scales.constants import SinkRole
+      b = b.ReplaceRole(SinkRole.Pool, WatermarkPoolSink.Builder(**script['pool']))
     b = b.SetUri('tcp://10.0.0.1:9090').SetTimeout(10).SetOpenTimeout(0)
     client = b.Build()
 
@@ -528,14 +562,15 @@ def run_case_multi(script):
   patch_random(script['rseed'])
   kind, n, focus = script['kind'], script['n'], script['focus']
   hosts = ['10.0.0.%d' % (i + 1) for i in range(n)]
-  fhost = hosts[focus]
+  fhost = hosts[focus] if isinstance(focus, int) else None
   ev = []
 
   def ms():
     return int(round((loop.now() - EPOCH) * 1000))
 
   env = {'up': {h: True for h in hosts}, 'closed': False, 'attempt_open': {}, 'last_up_at': T0}
-  peer = peers.ThriftPeer(net, auto_delay=0.01) if kind == 'thrift' else peers.MuxPeer(net, auto_delay=0.01)
+  adelay = script.get('auto_delay', 10) / 1000.0
+  peer = peers.ThriftPeer(net, auto_delay=adelay) if kind == 'thrift' else peers.MuxPeer(net, auto_delay=adelay)
   net.peer_factory = lambda c: peer
   down_mode = script['down_mode']
 
@@ -565,6 +600,9 @@ def run_case_multi(script):
   b = b.ReplaceSink(ResurrectorSink.Builder, ResurrectorSink.Builder(**rparams))
   if script['balancer'] == 'heap':
     b = b.ReplaceSink(ApertureBalancerSink.Builder, HeapBalancerSink.Builder())
+  elif script['balancer'] == 'aperture1':
+    # the default aperture: one active member, the others held in reserve
+    b = b.ReplaceSink(ApertureBalancerSink.Builder, ApertureBalancerSink.Builder(min_size=1, jitter_min_sec=0, jitter_max_sec=0))
   else:
     b = b.ReplaceSink(ApertureBalancerSink.Builder, ApertureBalancerSink.Builder(min_size=n, jitter_min_sec=0, jitter_max_sec=0))
   from scales.loadbalancer.serverset import ServerSetProvider
@@ -592,7 +630,13 @@ def run_case_multi(script):
   def on_net(e):
     k = e['kind']
     c = e['conn']
-    if net.conns[c].addr is None or net.conns[c].addr[0] != fhost:
+    if net.conns[c].addr is None:
+      return
+    if script.get('focus') == 'idle':
+      # the focus is decided at the end (the endpoint the aperture held in reserve): keep everything, tagged
+      if k == 'connect':
+        allev.append((net.conns[c].addr[0], len(ev)))
+    elif net.conns[c].addr[0] != fhost:
       return
     if env.get('left') and not env['closed']:
       return      # the focus endpoint has left the server set: only "quiet after close" is asserted for it from here on
@@ -621,6 +665,7 @@ def run_case_multi(script):
   net.listeners.append(on_net)
 
   nreq = [0]
+  allev = []
 
   def burst():
     d = client._dispatcher
@@ -659,6 +704,16 @@ def run_case_multi(script):
                 c.feed_error()
               first = False
         loop.run_until_idle()
+    elif k == 'refuse_new':
+      # from now on every new connect is refused; established connections keep working
+      for h_ in hosts:
+        env['up'][h_] = False
+    elif k == 'pile':
+      d = client._dispatcher
+      for _ in range(op[1]):
+        nreq[0] += 1
+        d.DispatchMethodCall('hi', ('r%d' % nreq[0],), {}, timeout=op[2] / 1000.0)
+      loop.settle()
     elif k == 'leave':
       h = hosts[op[1]]
       if h in provider.members:
@@ -694,6 +749,7 @@ def run_case_multi(script):
     elif k == 'close':
       if not env['closed']:
         env['closed'] = True
+        env['close_idx'] = len(ev)
         try:
           client.DispatcherClose()
         except Exception:
@@ -701,6 +757,22 @@ def run_case_multi(script):
         loop.run_until_idle()
         ev.append({'e': 'ClientClosed', 't': ms()})
   quiet()
+  if script.get('focus') == 'idle':
+    # events of all endpoints were recorded; keep those of the endpoints that had not been dialled when the
+    # client was closed plus the clock events (Quiet / ClientClosed): nothing may dial them afterwards
+    ci = env.get('close_idx', len(ev))
+    dialled_before = set(h_ for h_, i in allev if i < ci)
+    keep_hosts = set(hosts) - dialled_before
+    idx_host = {}
+    for h_, i in allev:
+      idx_host[i] = h_
+    out_ev = []
+    for i, e in enumerate(ev):
+      if e['e'] in ('Quiet', 'ClientClosed'):
+        out_ev.append(e)
+      elif e['e'] == 'Attempt' and idx_host.get(i) in keep_hosts:
+        out_ev.append(e)
+    ev = out_ev
   return {'cfg': {'t0': T0, 'initial': int(script['initial'] * 1000), 'max': int(script['max'] * 1000), 'slack': slack,
                   'kind': kind, 'level': 'multi'},
           'ev': ev, 'meta': {'errors': [list(e[1:3]) for e in loop.errors][:4], 'n': n, 'focus': focus,
